@@ -50,7 +50,7 @@ def run(ctx):
             if ctx.rng.random() < .3:
                 cl = [ctx.rng.randint(1, 40) for _ in range(ctx.rng.randint(1, 4))]
             cases.append((len(cases), sc, cl))
-    if ctx.thorough and not ctx.replay:
+    if ctx.fixtures and not ctx.replay:
         from harness import fixtures
         for sc in fixtures.slices("quantised"):
             for cl in ([96], [96, 96], [48, 100], [24, 24, 24, 24, 24], [500]):
